@@ -177,3 +177,38 @@ Proof.
               {| ov_ent := root; ov_repr := None |} (op_sels o) []) as [r errs].
   exact X.
 Qed.
+
+(* the reached fragment set of a valid operation: every name is defined, on a composite type, and
+   the set is closed under the spreads of the operation and of its members *)
+Theorem spec_valid_fragment_closed_proof : forall S d op,
+  spec_valid_b S d op = true ->
+  exists c, mk_ctx S d op = Some c /\
+    (forall m, In m (spreads_of (op_sels (cx_op c))) -> In m (cx_reached c)) /\
+    (forall n, In n (cx_reached c) ->
+       exists fr, find_frag n (doc_frags d) = Some fr /\ is_composite S (fr_type fr) = true /\
+                  forall m, In m (spreads_of (fr_sels fr)) -> In m (cx_reached c)).
+Proof.
+  intros S d op Hv. unfold spec_valid_b in Hv. destruct (mk_ctx S d op) as [c|] eqn:Ec; try discriminate.
+  exists c. split; auto.
+  destruct (mk_ctx_inv _ _ _ _ Ec) as [_ [_ Efr]].
+  assert (Hck : forall r b, In (r, b) (checks S c) -> b = true) by (intros; eapply check_true; eauto).
+  assert (C_fk : forallb (fun n => is_some (find_frag n (cx_frags c))) (cx_reached c) &&
+                 closed_b (cx_frags c) (op_sels (cx_op c)) (cx_reached c) = true).
+  { eapply Hck. unfold checks. do 9 right; left. reflexivity. }
+  assert (C_ft : forallb (fun f => is_composite S (fr_type f)) (frag_defs (cx_frags c) (cx_reached c)) &&
+                 forallb (node_frag_type S) (all_nodes S c) = true).
+  { eapply Hck. unfold checks. do 11 right; left. reflexivity. }
+  rewrite Efr in *.
+  apply andb_true_iff in C_fk. destruct C_fk as [C_fk C_cl].
+  apply andb_true_iff in C_ft. destruct C_ft as [C_ft _].
+  unfold closed_b in C_cl. apply andb_true_iff in C_cl. destruct C_cl as [C_cl1 C_cl2].
+  split.
+  - intros m Hm. apply mem_bytes_In. apply (forallb_In _ _ _ C_cl1 Hm).
+  - intros n Hn. pose proof (forallb_In _ _ _ C_fk Hn) as X. cbv beta in X.
+    destruct (find_frag n (doc_frags d)) as [fr|] eqn:Ef; try discriminate.
+    exists fr. split; auto.
+    pose proof (frag_defs_In _ _ _ _ Hn Ef) as Hin. split.
+    + apply (forallb_In _ _ _ C_ft Hin).
+    + intros m Hm. apply mem_bytes_In. pose proof (forallb_In _ _ _ C_cl2 Hin) as Y. cbv beta in Y.
+      apply (forallb_In _ _ _ Y Hm).
+Qed.
